@@ -28,9 +28,18 @@ def generate_traced(params, history=None, reuse=False):
     if reuse:
         from nasim.scenarios import ScenarioGenerator
         gen_fn = ScenarioGenerator().generate
+    import copy
+    # the caller's own parameter objects (lists of probabilities, bounds):
+    # built once; a "same" history entry passes these very objects to an
+    # earlier call, as a caller that keeps its settings in variables would
+    caller_p = copy.deepcopy(dict(params))
     st0 = np.random.get_state()
     for h in history or ():
-        hp = dict(h["params"])
+        hp = caller_p if h["kind"] == "same" \
+            else copy.deepcopy(dict(h["params"]))
+        if h["kind"] == "same":
+            hp = dict(hp)          # same list objects, own dict
+            hp.pop("probs_as_numpy", None)
         if hp.get("address_space_bounds") is not None:
             hp["address_space_bounds"] = tuple(hp["address_space_bounds"])
         try:
@@ -43,7 +52,7 @@ def generate_traced(params, history=None, reuse=False):
             if not isinstance(e, (Exception, seams.BudgetExceeded)):
                 raise
     np.random.set_state(st0)
-    p = dict(params)
+    p = dict(caller_p)
     if p.get("address_space_bounds") is not None and \
             p.get("seed", 0) % 2 == 0:
         p["address_space_bounds"] = tuple(p["address_space_bounds"])
@@ -277,8 +286,10 @@ def c15_run_one(prop, tier, root, idx, extra):
         for _ in range(fx.choice([1, 1, 2])):
             hp = configs.gen_params(fx, max_hosts=40, small_bias=True)
             kind = fx.choice(["ok", "ok", "rejected", "rejected",
-                              "interrupted"])
+                              "interrupted", "same", "same"])
             h = {"kind": kind, "params": hp}
+            if kind == "same":
+                h["params"] = {}
             if kind == "rejected":
                 h["how"] = configs.reject_params(hp, fx)
             elif kind == "interrupted":
@@ -470,8 +481,9 @@ def c16_execute(trace, tier, res):
     fl = core.stream(seed, "faults")
     sim = None
     try:
+        param = core.h64(f"{seed}|param-replay") % 3 == 0
         try:
-            sim = EnvSim(spec, {"fully_obs": False, "flat_actions": True,
+            sim = EnvSim(spec, {"fully_obs": False, "flat_actions": not param,
                                 "flat_obs": True}, [], seed, tier,
                          record=True)
         except SutError as e:
@@ -480,6 +492,18 @@ def c16_execute(trace, tier, res):
             return res
         cfg = sim.cfg
         plan, st = plan_closure(cfg)
+        if param and any((a.kind, a.target, a.name) not in sim.table.by_key
+                         for a in plan):
+            # a plan action is not expressible as a parameter vector (not
+            # the first definition for its pair): replay with flat actions
+            scen0 = sim.scenario
+            sim.close()
+            param = False
+            sim = EnvSim(spec, {"fully_obs": False, "flat_actions": True,
+                                "flat_obs": True}, [], seed, tier,
+                         record=True, scenario=scen0, cfg=cfg)
+        if param:
+            counters.hit("fault.encoding.wrapped_host_param")
         if not model.goal(cfg, st):
             raise Violation("C16.model", "the reference closure with every "
                             "draw succeeding does not reach root on all "
@@ -489,6 +513,9 @@ def c16_execute(trace, tier, res):
             plan = prune_plan(cfg, plan)
         counters.hit("sim.plan_steps", len(plan))
         lookahead = core.h64(f"{seed}|lookahead") % 3 == 0
+        reject_at = None
+        if core.h64(f"{seed}|reject-reset") % 4 == 0 and len(plan) >= 2:
+            reject_at = 1 + core.h64(f"{seed}|rr") % (len(plan) - 1)
         if lookahead:
             counters.hit("fault.background_gstep.planner_replay")
         done = False
@@ -514,11 +541,25 @@ def c16_execute(trace, tier, res):
                             "u": [float(0.0).hex()]})
             ops.append({"op": "step", "a": [a.kind, list(a.target), a.name],
                         "u": [float(0.0).hex()]})
+            if param:
+                # equivalent host numbers (documented wrap-around)
+                for o in ops:
+                    if o["op"] == "step":
+                        o["enc"] = "list"
+                        o["wrap"] = 1 + core.h64(f"{seed}|w|{n}") % 5
+            if reject_at is not None and n >= reject_at:
+                # a reset() call that is rejected (bad seed) in the middle
+                # of the plan; the caller catches it and carries on
+                reject_at = None
+                counters.hit("fault.rejected_call.reset")
+                ops.insert(0, {"op": "reject", "call": "reset",
+                               "how": ("neg", "float", "str", "int64")[
+                                   core.h64(f"{seed}|rj") % 4]})
             for op in ops:
                 sim.exec_op(op)
-                kind, out = sim.record[-1]
                 if op["op"] != "step":
                     continue
+                kind, out = sim.record[-1]
                 n += 1
                 done = out["done"]
         res["ops"] = n
